@@ -2239,8 +2239,8 @@ def rule_broadcast_axes(ctx):
                 continue
             if isinstance(st, ast.Assign) and len(st.targets) == 1 and isinstance(st.targets[0], ast.Tuple) and isinstance(st.value, ast.Call) \
                     and (dotted_name(st.value.func) or '').split('.')[-1] == 'broadcast_arrays' and len(st.value.args) == 2 \
-                    and all(isinstance(a, ast.Name) and a.id in lab for a in st.value.args) and len(st.targets[0].elts) == 2:
-                a, b = (lab[x.id] for x in st.value.args)
+                    and all(labels_of(a) is not None for a in st.value.args) and len(st.targets[0].elts) == 2:
+                a, b = (labels_of(x) for x in st.value.args)
                 at_bc = (list(a), list(b))
                 L = max(len(a), len(b))
                 pa, pb = [None] * (L - len(a)) + a, [None] * (L - len(b)) + b
